@@ -73,6 +73,23 @@ pub struct Case {
     /// construction against the real index sort ended, and how many comparisons the sort asked for
     #[serde(default)]
     pub sort_adversary: Option<(String, u64)>,
+    /// > 0: one more predict call with this many rows (training rows + queries repeated in a scrambled order): code
+    /// that works through its rows in blocks (1024, 4096, 65536) meets the block boundaries only in such a call
+    #[serde(default)]
+    pub many: usize,
+    /// 1 = the forest also goes through a bincode round trip, 2 = through serde_json values; the restored forest is
+    /// asked predict / predict_oob again: a restored forest is a forest
+    #[serde(default)]
+    pub roundtrip: u8,
+}
+
+/// source row (of training rows + queries) behind every row of the many-row call
+fn many_src(case: &Case) -> Vec<usize> {
+    let m = case.x.len() + case.queries.len();
+    let seed = case.params.seed ^ case.x.len() as u64;
+    let stride = 1 + (seed % 7) as usize;
+    let off = (seed / 7 % m as u64) as usize;
+    (0..case.many).map(|j| (j * stride + off + j / m) % m).collect()
 }
 
 /// the query rows with their non-finite cells filled in
@@ -140,6 +157,14 @@ struct FitOut {
     alt: Option<Vec<f64>>,
     single: Option<Vec<f64>>,
     tall: Option<Vec<f64>>,
+    /// predict on the many-row matrix
+    many: Option<Vec<f64>>,
+    /// predict(training rows + queries) / predict_oob(training rows) of the restored forest
+    restored: Option<(Vec<f64>, Option<Vec<f64>>)>,
+    restore_err: Option<String>,
+    /// in-run history: the per-row sample counts every member tree was grown from, in the order the trees were fitted
+    /// (probe at the start of every tree fit)
+    bags: Vec<Vec<usize>>,
     repeat_mismatch: Option<String>,
     calls: u64,
     words_consumed: Option<usize>,
@@ -160,7 +185,7 @@ fn fit_once(case: &Case, ambient: &Option<TapeSpec>) -> (FitOut, Option<Box<dyn 
     }
 }
 
-fn fit_once_t<T: RealNumber + Serialize + Send + 'static>(case: &Case, ambient: &Option<TapeSpec>) -> (FitOut, Option<Box<dyn std::any::Any + Send>>) {
+fn fit_once_t<T: RealNumber + Serialize + serde::de::DeserializeOwned + Send + 'static>(case: &Case, ambient: &Option<TapeSpec>) -> (FitOut, Option<Box<dyn std::any::Any + Send>>) {
     let x: DenseMatrix<T> = mat_t(&case.x);
     let yt: Vec<T> = case.y.iter().map(|v| T::from_f64(*v).unwrap()).collect();
     let mut q = case.x.clone();
@@ -170,8 +195,20 @@ fn fit_once_t<T: RealNumber + Serialize + Send + 'static>(case: &Case, ambient: 
     let _plan = StdPlanGuard::install(case.std_fault);
     rand::sim::take_std_faults_fired();
     let p = &case.params;
-    let mut out = FitOut { bytes: vec![], pred: vec![], oob: None, alt: None, single: None, tall: None, repeat_mismatch: None, calls: 0, words_consumed: None, draw_faults: 0, thr: None, value: Value::Null, err: None };
+    let mut out = FitOut { bytes: vec![], pred: vec![], oob: None, alt: None, single: None, tall: None, many: None, restored: None, restore_err: None, bags: vec![], repeat_mismatch: None, calls: 0, words_consumed: None, draw_faults: 0, thr: None, value: Value::Null, err: None };
     let mut model_box: Option<Box<dyn std::any::Any + Send>> = None;
+    let bag_log: std::rc::Rc<std::cell::RefCell<Vec<Vec<usize>>>> = Default::default();
+    {
+        let l = bag_log.clone();
+        smartcore::verif::set_tree_fit_observer(Some(Box::new(move |s: &[usize]| l.borrow_mut().push(s.to_vec()))));
+    }
+    struct ObsGuard;
+    impl Drop for ObsGuard {
+        fn drop(&mut self) {
+            smartcore::verif::set_tree_fit_observer(None);
+        }
+    }
+    let _og = ObsGuard;
     if case.task == "clf" {
         let params = match case.ctor % 3 {
             0 => RandomForestClassifierParameters {
@@ -222,9 +259,38 @@ fn fit_once_t<T: RealNumber + Serialize + Send + 'static>(case: &Case, ambient: 
             Ok(Err(e)) => out.err = Some(format!("error: {}", e)),
             Ok(Ok(model)) => {
                 out.words_consumed = guard.as_ref().map(|g| g.served());
+                smartcore::verif::set_tree_fit_observer(None);
+                out.bags = bag_log.borrow().clone();
                 out.bytes = bincode::serialize(&model).unwrap_or_default();
                 out.value = serde_json::to_value(&model).unwrap_or(Value::Null);
                 run_ops::<T>(case, &mut out, &x, &qm, &|m| if via_trait { Predictor::<DenseMatrix<T>, Vec<T>>::predict(&model, m).map(to64) } else { model.predict(m).map(to64) }, &|m| model.predict_oob(m).map(to64));
+                if case.many > 0 && out.err.is_none() {
+                    let big: Vec<Vec<f64>> = many_src(case).iter().map(|s| q[*s].clone()).collect();
+                    match guarded(|| model.predict(&mat_t::<T>(&big)).map(to64)) {
+                        Ok(Ok(v)) => out.many = Some(v),
+                        Ok(Err(e)) => out.err = Some(format!("predict on {} rows: error: {}", big.len(), e)),
+                        Err(m) => out.err = Some(format!("predict on {} rows: panic: {}", big.len(), m)),
+                    }
+                }
+                if case.roundtrip > 0 && out.err.is_none() {
+                    let restored: Result<RandomForestClassifier<T>, String> = if case.roundtrip == 1 {
+                        bincode::deserialize(&out.bytes).map_err(|e| e.to_string())
+                    } else {
+                        serde_json::from_value(out.value.clone()).map_err(|e| e.to_string())
+                    };
+                    match restored {
+                        Err(e) => out.restore_err = Some(e),
+                        Ok(m2) => match guarded(|| (m2.predict(&qm).map(to64), if case.params.keep_samples { Some(m2.predict_oob(&x).map(to64)) } else { None })) {
+                            Ok((Ok(pv), ob)) => match ob {
+                                Some(Err(e)) => out.restore_err = Some(format!("predict_oob error: {}", e)),
+                                Some(Ok(o)) => out.restored = Some((pv, Some(o))),
+                                None => out.restored = Some((pv, None)),
+                            },
+                            Ok((Err(e), _)) => out.restore_err = Some(format!("predict error: {}", e)),
+                            Err(m) => out.restore_err = Some(format!("panic: {}", m)),
+                        },
+                    }
+                }
                 let tr = threshold_rows(case, &out.value);
                 if !tr.is_empty() && out.err.is_none() {
                     if let Ok(Ok(v)) = guarded(|| model.predict(&mat_t::<T>(&tr))) {
@@ -281,9 +347,38 @@ fn fit_once_t<T: RealNumber + Serialize + Send + 'static>(case: &Case, ambient: 
             Ok(Err(e)) => out.err = Some(format!("error: {}", e)),
             Ok(Ok(model)) => {
                 out.words_consumed = guard.as_ref().map(|g| g.served());
+                smartcore::verif::set_tree_fit_observer(None);
+                out.bags = bag_log.borrow().clone();
                 out.bytes = bincode::serialize(&model).unwrap_or_default();
                 out.value = serde_json::to_value(&model).unwrap_or(Value::Null);
                 run_ops::<T>(case, &mut out, &x, &qm, &|m| if via_trait { Predictor::<DenseMatrix<T>, Vec<T>>::predict(&model, m).map(to64) } else { model.predict(m).map(to64) }, &|m| model.predict_oob(m).map(to64));
+                if case.many > 0 && out.err.is_none() {
+                    let big: Vec<Vec<f64>> = many_src(case).iter().map(|s| q[*s].clone()).collect();
+                    match guarded(|| model.predict(&mat_t::<T>(&big)).map(to64)) {
+                        Ok(Ok(v)) => out.many = Some(v),
+                        Ok(Err(e)) => out.err = Some(format!("predict on {} rows: error: {}", big.len(), e)),
+                        Err(m) => out.err = Some(format!("predict on {} rows: panic: {}", big.len(), m)),
+                    }
+                }
+                if case.roundtrip > 0 && out.err.is_none() {
+                    let restored: Result<RandomForestRegressor<T>, String> = if case.roundtrip == 1 {
+                        bincode::deserialize(&out.bytes).map_err(|e| e.to_string())
+                    } else {
+                        serde_json::from_value(out.value.clone()).map_err(|e| e.to_string())
+                    };
+                    match restored {
+                        Err(e) => out.restore_err = Some(e),
+                        Ok(m2) => match guarded(|| (m2.predict(&qm).map(to64), if case.params.keep_samples { Some(m2.predict_oob(&x).map(to64)) } else { None })) {
+                            Ok((Ok(pv), ob)) => match ob {
+                                Some(Err(e)) => out.restore_err = Some(format!("predict_oob error: {}", e)),
+                                Some(Ok(o)) => out.restored = Some((pv, Some(o))),
+                                None => out.restored = Some((pv, None)),
+                            },
+                            Ok((Err(e), _)) => out.restore_err = Some(format!("predict error: {}", e)),
+                            Err(m) => out.restore_err = Some(format!("panic: {}", m)),
+                        },
+                    }
+                }
                 let tr = threshold_rows(case, &out.value);
                 if !tr.is_empty() && out.err.is_none() {
                     if let Ok(Ok(v)) = guarded(|| model.predict(&mat_t::<T>(&tr))) {
@@ -765,6 +860,29 @@ impl C06 {
         if let Some(tl) = &a.tall {
             to_judge.extend(tl.iter().cloned().enumerate().map(|(i, v)| (v, i % n)));
         }
+        if let Some(mv) = &a.many {
+            let src = many_src(case);
+            if mv.len() != src.len() {
+                rep.fail("shape", "forest-predict", format!("{}: {} predictions for a matrix of {} rows", ctx, mv.len(), src.len()));
+            } else {
+                to_judge.extend(mv.iter().cloned().zip(src.iter().cloned()));
+            }
+            rep.count("fault.many-rows-in-one-call", 1);
+            rep.count("steps.rows-in-many-row-calls", src.len() as u64);
+        }
+        if case.roundtrip > 0 {
+            rep.count("fault.model-restored-from-serialised-form", 1);
+        }
+        if let Some(e) = &a.restore_err {
+            rep.fail("restore-failed", "forest-model", format!("{}: the fitted forest does not survive serialisation / cannot be asked afterwards: {}", ctx, e));
+        }
+        if let Some((rp, _)) = &a.restored {
+            if rp.len() != nq {
+                rep.fail("shape", "forest-predict", format!("{}: restored forest: {} predictions for {} rows", ctx, rp.len(), nq));
+            } else {
+                to_judge.extend(rp.iter().cloned().enumerate().map(|(i, v)| (v, i)));
+            }
+        }
         let pred_ok_len = a.pred.len() == nq
             && a.alt.as_ref().map(|v| v.len() == n).unwrap_or(true)
             && a.single.as_ref().map(|v| v.len() == 1).unwrap_or(true)
@@ -811,7 +929,19 @@ impl C06 {
         }
         // ---- 4. out-of-bag history
         let mut rows_with_oob = 0usize;
-        if let (Some(s), Some(oob)) = (&samples, &a.oob) {
+        let mut oob_answers: Vec<(&'static str, &Vec<f64>)> = vec![];
+        if let Some(o) = &a.oob {
+            oob_answers.push(("predict_oob", o));
+        }
+        if let Some((_, Some(o))) = &a.restored {
+            oob_answers.push(("predict_oob of the restored forest", o));
+        }
+        for (which, oob) in oob_answers.iter().cloned() {
+            let s = match &samples { Some(s) => s, None => break };
+            if rep.violation.is_some() {
+                break;
+            }
+            let ctx = if which == "predict_oob" { ctx.clone() } else { format!("{} [{}]", ctx, which) };
             if s.len() == member.len() && oob.len() == n && s.iter().all(|m| m.len() == n) {
                 // rows that are in the bag of every tree: the out-of-bag aggregate runs over NO tree. Whatever value the
                 // library's convention gives for an empty aggregate (0/0, the first class, ...), it is the same empty
@@ -871,6 +1001,37 @@ impl C06 {
                             break;
                         }
                     }
+                }
+            } else if oob.len() != n {
+                rep.fail("shape", "forest-oob", format!("{}: {} out-of-bag predictions for {} training rows", ctx, oob.len(), n));
+            }
+        }
+        if let Some(s) = &samples {
+            // ---- 4b. the kept masks against the recorded history: the probe at the start of every tree fit logged the
+            // sample counts each tree was grown from. The mask the model keeps for tree t must be the support of the
+            // sample tree t was grown from - otherwise "the trees whose bootstrap sample did not contain row i" is not
+            // what predict_oob aggregates. Masks are matched to fit events in order (an implementation may fit and
+            // discard trees; a mask that is the support of no remaining event is the violation).
+            rep.count("steps.tree-fit-events", a.bags.len() as u64);
+            if rep.violation.is_none() && s.iter().all(|m| m.len() == n) && !a.bags.is_empty() {
+                let mut ev = 0usize;
+                for (t, m) in s.iter().enumerate() {
+                    let mut found = false;
+                    while ev < a.bags.len() {
+                        let bag = &a.bags[ev];
+                        ev += 1;
+                        if bag.len() == n && (0..n).all(|i| (bag[i] > 0) == m[i]) {
+                            found = true;
+                            break;
+                        }
+                    }
+                    if !found {
+                        let grown: Vec<usize> = a.bags.get(t).map(|b| (0..b.len()).filter(|i| b[*i] > 0).collect()).unwrap_or_default();
+                        let kept: Vec<usize> = (0..n).filter(|i| m[*i]).collect();
+                        rep.fail("mask-not-bag", "forest-bootstrap", format!("{}: the kept bootstrap mask of tree {} lists rows {:?}, but no tree fit (from fit event {} on) was grown from a sample with that support; fit event {} used rows {:?}", ctx, t, kept, t, t, grown));
+                        break;
+                    }
+                    rep.count("steps.masks-matched-to-fit-events", 1);
                 }
             }
             // ---- 5. stratification (classifier): every bootstrap sample holds every class
@@ -1176,8 +1337,12 @@ fn gen_case(batch: &str, _index: u64, seed: u64) -> Case {
             }
         }
     }
+    let (many, roundtrip) = {
+        let mut po = Xo::fork(seed, "post");
+        (if po.chance(0.01) { *po.pick(&[1030usize, 2060, 4100, 4100, 4100, 8200, 16_400, 65_600]) } else { 0 }, if po.chance(0.2) { 1 + po.below(2) as u8 } else { 0 })
+    };
     let std_fault = if batch == "twins-draw-faults" { Some((sc.u64(), *pr.pick(&[300u32, 3000, 30_000, 150_000, 350_000]))) } else { None };
-    Case { task: task.into(), x, y, params, queries, ambient_a, ambient_b, pollute, ops, refit_same_thread, kind: kind.into(), ctor, f32m, std_fault, nonfinite_cells, sort_adversary }
+    Case { task: task.into(), x, y, params, queries, ambient_a, ambient_b, pollute, ops, refit_same_thread, kind: kind.into(), ctor, f32m, std_fault, nonfinite_cells, sort_adversary, many, roundtrip }
 }
 
 impl Property for C06 {
